@@ -515,7 +515,8 @@ def check_C12(prop, tier, only):
 def check_C15(prop, tier, only):
     c = [x for x in cfgs_for(tier) if x != "rel"] + (["rel"] if tier != "quick" else [])
     jobs = (pool_suite(tier, c, fams=("traits",)) + pool_suite(tier, c[:1], extra="--moves 2", fams=("traits",)) + coll_suite(tier, c, fams=("traits",))
-            + stack_suite(tier, c, fams=("traits",)) + stack_suite(tier, c[:1], extra="--moves 2", fams=("traits",)))
+            + stack_suite(tier, c, fams=("traits",)) + stack_suite(tier, c[:1], extra="--moves 2", fams=("traits",))
+            + coll_suite(tier, c[:1], extra="--moves 2", fams=("traits",)))
     ej = [J("h_lowlevel", cfg, "--mode leak", name=f"lowlevel-leak[{cfg}]") for cfg in c]
     return run_explore_check(prop, tier, jobs, only, enum_jobs=ej, note=NOTE_BFS +
                              "stateless low-level allocators: every multiset of <= 2/3 allocations x every released subset runs in a forked child that exits normally, "
